@@ -50,6 +50,10 @@ CHECKS = {
 CHECKS["C11"] = ("Oracle-free twin validation: a game and its three symmetric images are played in lock-step on four engine instances and every observation (board, "
                  "status, both action lists, previews, results) must be the image of the base under ArimaaSym's maps; TLC separately checks that the spec commutes "
                  "with the maps on all reachable states of 3x3/4x4 models", "6.C11", "TLA+ symmetry maps + twin-trace validation")
+CHECKS["C18"] = ("PlusCal model SharedExpand.tla: TLC explores every interleaving of the atomic steps of concurrent expansion of shared immutable states over the "
+                 "refcounted persistent list (immutability, no use-after-free, results = sequential, exact refcounts); bound to the code by a compile probe (client crate "
+                 "requiring Send+Sync) and by a 16-thread driver whose per-thread observation digests are validated by the trace spec against the sequential expansion", "6.C18",
+                 "PlusCal/TLA+ interleaving model + TLC; compile probe; concurrent trace validation")
 CHECKS["C20"] = ("PList.tla models the persistent history list with refcounts and two drop disciplines; TLC proves the iterative discipline stack-bounded and the "
                  "recursive one not; the code is bound to the iterative discipline by process-level observation (ladder of capture-free games up to 400k/1.2M turns on a "
                  "2 MiB stack, stack-size bisection at two lengths, two build profiles) validated by DropTrace.tla; first 3000 turns trace-validated", "6.C20",
@@ -76,7 +80,7 @@ def main():
           for p in props if p not in CHECKS]
     m = {
         "version": 1,
-        "setup_cmd": "cd /verif/harness && CARGO_NET_OFFLINE=true cargo build --offline --release && CARGO_NET_OFFLINE=true cargo build --offline --profile plain",
+        "setup_cmd": "cd /verif/harness && CARGO_NET_OFFLINE=true cargo build --offline --release && CARGO_NET_OFFLINE=true cargo build --offline --profile plain && cd /verif/autotraits && CARGO_NET_OFFLINE=true cargo build --offline --release",
         "hooks": {"guard": "arimaa_engine_step_verif",
                   "enable": "RUSTFLAGS='--cfg arimaa_engine_step_verif' (reserved; no hook is currently needed: the public API exposes the abstract state)",
                   "baseline_off_cmd": "cd /repo && cargo test --workspace --no-fail-fast --offline",
